@@ -28,7 +28,7 @@ ASSUMPTIONS = [
     "any exception counts as rejection of a negative variant (types are judged in C14)",
 ]
 REQUIRED_CLASSES = ["sections>=2", "page-crossing", "neg.gap-last-line", "neg.gap", "neg.nonzero-start", "neg.unknown-tagtype", "neg.no-bf3update", "debug-version",
-                    "compat-section", "ignored-section", "select-filter", "memoryimage.direct", "metamorphic", "neg.overlap", "route=path"]
+                    "compat-section", "ignored-section", "select-filter", "memoryimage.direct", "metamorphic", "neg.overlap", "route=path", "neg.missing-page"]
 
 B3 = sut.B3
 Bf2BinLine = B3.Bf2BinLine
@@ -187,7 +187,7 @@ def check_negative(case, rec):
     msg = "BF2 file with %s was converted instead of rejected (components: %r)" % (kind, [(c["desc"].get(0xC3), len(c["blob"])) for c in _obs(f)])
     s = af["sections"][case["sec"]] if case.get("sec") is not None else None
     last = s is not None and s.get("shifts") and max(s["shifts"]) == len(BM.blob_lines(s["base"], s["image"], s["line_sizes"])) - 1
-    if kind == "gap-last-line" or (kind in ("gap", "overlap") and last):
+    if kind == "gap-last-line" or (kind in ("gap", "overlap") and last):  # (missing-page cases are never the last line)
         known_or_violation(PROPERTY, "c13-gap-before-last-line", msg + " - the last data line (non-contiguous) was dropped: image %d bytes, imported %d" % (
             len(s["image"]), len(_obs(f)[0]["blob"]) if f.components else -1))
     raise Violation(msg)
@@ -431,9 +431,35 @@ def enum_pages(tier, shard, nshards, rng):
                 yield dict(file=dict(header=hdr, sections=[sec], noise=False), style=i % 4, alt=dict(sections=[dict(line_sizes=[200, 33], fe=False, group_breaks=[])], style=1))
 
 
+def enum_missing_page(tier, shard, nshards, rng):
+    """CONSTRUCTED negatives: a blob image with one or more WHOLE 64 KiB pages missing (the page before the hole is full and the
+    next present page starts at in-page address 0), and pages in non-monotonic order: must be rejected"""
+    hdr = dict(fwid="1100", filler=" BALTECH_FW", version="2.05.01", rest="", creator="ConfigEditor", bf3update="1")
+    i = 0
+    for base in (0x35, 0x39, 0x40):
+        for n, ls in ((65536 + 300, [256 - 6]), (2 * 65536 + 100, [128])):
+            if n > BM.SECTION_KINDS[base]["pages"] * 0x10000 - 0x10000:
+                continue
+            for hole_pages in (1, 2):
+                i += 1
+                if i % nshards != shard:
+                    continue
+                image = bytes((rng.getrandbits(8) + j) & 0xFF for j in range(251)) * (n // 251 + 1)
+                image = image[:n]
+                # make the first page exactly full: line size must divide 0x10000
+                ls2 = [128] if 0x10000 % ls[0] else ls
+                lines = BM.blob_lines(base, image, ls2)
+                first_p1 = next(j for j, (t, f) in enumerate(lines) if t != base)
+                if (base + 1 + hole_pages) - base >= BM.SECTION_KINDS[base]["pages"]:
+                    continue
+                sec = dict(base=base, fe=False, pre=[], post=[], reboot=True, group_breaks=[], image=image, line_sizes=ls2, shifts={first_p1: hole_pages * 0x10000})
+                yield dict(file=dict(header=hdr, sections=[sec], noise=False), neg="missing-page", sec=0, style=i % 4)
+
+
 def parts(tier):
     return [
         Part("pages", check=check_import, enum=enum_pages, quick=(8, 0), thorough=(16, 0)),
+        Part("missing_page", check=check_negative, enum=enum_missing_page, quick=(4, 0), thorough=(8, 0)),
         Part("import", check=check_import, strategy=lambda t: strat_import(t), quick=(16, 300), thorough=(16, 1200)),
         Part("negative", check=check_negative, strategy=lambda t: strat_negative(t), quick=(16, 250), thorough=(16, 1200)),
         Part("memimg", check=check_memimg, strategy=lambda t: strat_memimg(t), quick=(16, 200), thorough=(16, 1500)),
